@@ -118,8 +118,17 @@ func c12Producer(r *Run, t *tape.Tape) {
 	calls := 1 + t.Choose(4, "c12.calls")
 	snap0 := Snapshot(&h)
 	for c := 0; c < calls; c++ {
-		ha := []int64{refcose.AlgSHA256, refcose.AlgSHA384, refcose.AlgSHA512, -18, 0, 9999}[t.Pick([]int{4, 2, 2, 1, 1, 1}, "c12.hash")]
+		ha := []int64{refcose.AlgSHA256, refcose.AlgSHA384, refcose.AlgSHA512, -18, 0, 9999, 1}[t.Pick([]int{4, 2, 2, 1, 1, 1, 2}, "c12.hash")]
 		n := refcose.HashLen(ha)
+		registered := ha == 1
+		if ha == 1 {
+			// the other registered hash algorithms (RFC 9054), with the digest
+			// length they really have: ids this library has no code for, so
+			// any length goes
+			reg := [][2]int64{{-14, 20}, {-15, 8}, {-17, 32}, {-18, 32}, {-45, 64}, {-15, 8}}
+			pick := reg[t.Choose(len(reg), "c12.hash.registered")]
+			ha, n = pick[0], int(pick[1])
+		}
 		if n == 0 {
 			n = 1 + t.Choose(70, "c12.hash.len")
 		}
@@ -161,6 +170,28 @@ func c12Producer(r *Run, t *tape.Tape) {
 		if err != nil {
 			if env != nil {
 				r.Fail("producer-returns-bytes-with-error", "SignHashEnvelope returned %d bytes together with %v", len(env), err)
+			}
+			if registered && lenClass == "right-length" {
+				// refused with the length the algorithm really has: if the
+				// same call goes through with another length, the library
+				// "knows" this algorithm with a length it does not have, and
+				// what it then emits is not the hash value with the length
+				// the algorithm requires
+				for _, other := range []int{32, 48, 64, 20, 28, 8} {
+					if other == n {
+						continue
+					}
+					p2 := p
+					p2.HashValue = make([]byte, other)
+					var env2 []byte
+					var err2 error
+					r.Lib(func() { env2, err2 = cose.SignHashEnvelope(ent, signer, h, p2) })
+					if err2 == nil && env2 != nil {
+						r.Fail("producer-demands-wrong-digest-length", "hash algorithm %d has %d-byte values (RFC 9054); SignHashEnvelope refuses such a value (%v) and produces an envelope for a %d-byte one", ha, n, err, other)
+						return
+					}
+				}
+				r.Probe("registered-hash-refusal-cross-checked")
 			}
 			continue
 		}
